@@ -338,6 +338,8 @@ def check_binary_op_fold(run, tree, stricts=(True, False)):
         ("Array, compatible different unit", lambda: new_array(tree, hk, "B", "cm"), (("*", "B", ("ratio", "cm", "m")), "m"), (("*", "B", ("ratio", "cm", "m")), "m")),
         ("Array, incompatible unit", lambda: new_array(tree, hk, "B", "s"), "raise", ("B", "s")),
         ("number", lambda: 2.0, "raise", (("num", 2.0), "dimensionless")),
+        # zero is a number like any other: "zero is zero in every unit" is not this package's contract (x_m > 0 refuses like x_m > 1)
+        ("the number zero", lambda: 0.0, "raise", (("num", 0.0), "dimensionless")),
         ("ndarray", lambda: RawTok("N"), "raise", ("N", "dimensionless")),
         ("Quantity in a compatible unit", lambda: Q(RawTok("Qm"), U("cm")), (("*", "Qm", ("ratio", "cm", "m")), "m"), (("*", "Qm", ("ratio", "cm", "m")), "m")),
         # a dimensionless left operand: numbers are accepted; other dimensionless units (percent, ...) still converted
